@@ -15,13 +15,13 @@ type replayIn struct {
 	History []string `json:"history"`
 	Index   int      `json:"index"`
 	Kind    string   `json:"kind"`
-	Via  string `json:"via"`
-	In   string `json:"in"`
-	Cuts []int  `json:"cuts"`
-	VC   int    `json:"vc"`
-	Fam  int    `json:"fam"`
-	Len  int    `json:"len"`
-	Seed int    `json:"seed"`
+	Via     string   `json:"via"`
+	In      string   `json:"in"`
+	Cuts    []int    `json:"cuts"`
+	VC      int      `json:"vc"`
+	Fam     int      `json:"fam"`
+	Len     int      `json:"len"`
+	Seed    int      `json:"seed"`
 }
 
 // runReplay re-runs exactly one recorded case and writes it as a one-case shard.
